@@ -3,11 +3,14 @@ package concurrent
 // Execute a function concurrently for each element of a collection.
 // Specify the max number of goroutines running at the same time.
 func Foreach[E any](concurrencyLimit int, collection []E, f func(E)) {
+	collection = verifPermute(collection)
 	sem := make(chan bool, concurrencyLimit)
 	for _, element := range collection {
 		sem <- true
 		go func(element E) {
+			verifYield()
 			f(element)
+			verifYield()
 			<-sem
 		}(element)
 	}
